@@ -77,7 +77,7 @@ class TextWriter:
                 self.emit(str(imp.info[1]), str(imp.info[2]))
             elif imp.info[1] != 0:
                 self.emit(str(imp.info[1]))
-            self.emit("funcref")
+            self.emit(str(imp.info[0]))
         elif imp.kind == "memory":
             if imp.id != "$0":
                 self.gen_id(imp.id)
@@ -100,11 +100,10 @@ class TextWriter:
     def write_table_definition(self, table: components.Table):
         self.emit("(", "table")
         self.gen_id(table.id)
-        if table.max is None:
-            if table.min != 0:
-                self.emit(f"{table.min:d}")
-        else:
-            self.emit(f"{table.min:d}")
+        # The minimum is always printed: "(table funcref" is the start of
+        # the inline-elements abbreviation, not a table without limits.
+        self.emit(f"{table.min:d}")
+        if table.max is not None:
             self.emit(f"{table.max:d}")
         self.emit(table.kind)
         self.emit(")")
